@@ -47,8 +47,6 @@ func (m *GTRModel) InitModel(d, f, b, e, a, c, piA, piC, piG, piT float64) (err 
 }
 
 func (m *GTRModel) computeEigens() (err error) {
-	var u mat.CDense
-
 	// Compute eigen values, left and right eigenvectors of Q
 	eigen := &mat.Eigen{}
 	if ok := eigen.Factorize(m.qmatrix, mat.EigenRight); !ok {
@@ -56,19 +54,7 @@ func (m *GTRModel) computeEigens() (err error) {
 		return
 	}
 
-	val := make([]float64, 4)
-	for i, b := range eigen.Values(nil) {
-		val[i] = real(b)
-	}
-	eigen.VectorsTo(&u)
-	reigenvect := mat.NewDense(4, 4, nil)
-	leigenvect := mat.NewDense(4, 4, nil)
-	reigenvect.Apply(func(i, j int, val float64) float64 { return real(u.At(i, j)) }, reigenvect)
-	leigenvect.Inverse(reigenvect)
-
-	m.leigenvect = leigenvect
-	m.reigenvect = reigenvect
-	m.val = val
+	m.val, m.leigenvect, m.reigenvect, err = realEigenSystem(eigen)
 
 	return
 }
